@@ -3,7 +3,7 @@ import json, os
 ROOT = os.path.dirname(os.path.dirname(os.path.abspath(__file__)))
 ALL = [f"C{i:02d}" for i in range(1, 21)]
 # integrated and passing on the unchanged tree (a claim file written by a builder is not enough)
-READY = {"C01", "C02", "C03", "C04", "C05", "C06", "C07", "C08", "C09", "C12", "C13", "C16", "C18", "C14", "C15", "C17", "C19", "C20"}
+READY = {"C01", "C02", "C03", "C04", "C05", "C06", "C07", "C08", "C09", "C10", "C11", "C12", "C13", "C14", "C15", "C16", "C17", "C18", "C19", "C20"}
 CLAIMED = {}
 for _f in sorted(os.listdir(os.path.join(ROOT, "harness", "props"))):
     if _f.endswith(".claim.json"):
